@@ -314,6 +314,11 @@ class StmtMixin:
         return [Out("continue", st)]
 
     def st_Import(self, s, st, exc):
+        # a function-local import binds module-level names: they behave like the module's globals
+        for a in getattr(s, "names", []):
+            nm = (a.asname or a.name).split(".")[0]
+            if nm != "*":
+                self.module_names.add(nm)
         return [Out("normal", st)]
 
     st_ImportFrom = st_Import
@@ -770,6 +775,8 @@ class StmtMixin:
                 n = S.If(n < i0, i0, n)
             if ls.prefix and seqv is not None:
                 self.track(st, V(seqv.s, z3.SubSeq(seqv.t, 0, i0.t)))
+            if ls.hints is not None:
+                st.assume(S.lift(ls.hints(self.inv_ctx(st, pre, extra_for(i0)))))
             self.emit(tag + ".inv.init", s, st, ls.inv(self.inv_ctx(st, pre, extra_for(i0))))
             h = st.copy()
             self.havoc_loop(h, s, ls)
